@@ -112,3 +112,13 @@ func init() {
 		LevelText: "fault enumeration over disconnect positions: every step index of the base histories is a disconnect point; the cleanup obligations are checked at the exact quiescent point following it",
 		LevelNote: "trusted base: onWSClose callback marks completion of the gateway's dispose; hooks"})
 }
+
+func init() {
+	add(&Prop{ID: "C16", Level: "exploration", Shards: 16,
+		Technique:   "runtime monitoring: differential oracle - real HTTP handler output against an independent recursive reference rendering of the reference service's resource graph, over enumerated and generated graphs",
+		Rule:        "every digraph (self loops included) on 1-3 nodes x {model, collection} typing x both API encodings (exhaustive in the thorough tier, a seed-dependent quarter of the 3-node graphs in the quick tier), root = node 0, plus random graphs on 2-10 nodes with error leaves, soft references, nested data values, duplicate references, hostile keys and four apiPath prefixes; body must be well-formed JSON semantically equal to the reference expansion; HEAD compared with GET on status and headers; POST results verbatim / 204 for null / Location for resource responses; non-trivial = graph with at least one edge; distinct = enumeration index / graph hash",
+		Assumptions: []string{"the world is static during each GET", "semantic (decoded) JSON equality, so key order and whitespace are free"},
+		DesignRef:   "DESIGN.md §4 C16",
+		LevelText:   "exploration with exhaustive enumeration of the small graphs: the real encoder is compared with an independent recursive renderer for every enumerated graph; termination on cycles is observed (a non-terminating request hits the watchdog and is reported inconclusive with a goroutine dump)",
+		LevelNote:   "trusted base: reference renderer written from the property text, SimBus, net/http/httptest recorder"})
+}
